@@ -129,6 +129,18 @@ def c01_candidates(P, uni, sibling_labels=('e', 'a', 'b', 'c')):
     _blk(P, [T0, mk_tx([(o_ref, K[0])], [(v - 5, K[2])])], 'same-ref-in-two-txs', out)
     if o1:
         _blk(P, [T2, T0], 'same-ref-in-two-txs-2in', out)
+        # the two transactions spending the same output are not neighbours
+        Tmid = mk_tx([(oref(o1[0]), K[1])], [(U[o1[0]][0] - 3, K[0])])
+        _blk(P, [T0, Tmid, mk_tx([(o_ref, K[0])], [(v - 5, K[2])])], 'same-ref-in-first-and-third-tx', out)
+        _blk(P, [mk_tx([(o_ref, K[0])], [(v - 5, K[2])]), Tmid, T0], 'same-ref-in-third-and-first-tx', out)
+        if len(o1) > 1:
+            Tmid2 = mk_tx([(oref(o1[1]), K[1])], [(U[o1[1]][0] - 3, K[0])])
+            _blk(P, [T0, Tmid, Tmid2, mk_tx([(o_ref, K[0])], [(v - 5, K[2])])], 'same-ref-in-first-and-fourth-tx', out)
+        # multi-input transactions with exactly one wrongly signed input (first / second)
+        v1 = U[o1[0]][0]
+        _blk(P, [mk_tx([(o_ref, K[0]), (oref(o1[0]), K[2])], [(v + v1 - 7, K[2])])], 'second-input-signed-by-wrong-key', out)
+        _blk(P, [mk_tx([(o_ref, K[2]), (oref(o1[0]), K[1])], [(v + v1 - 7, K[2])])], 'first-input-signed-by-wrong-key', out)
+        _blk(P, [mk_tx([(o_ref, K[0]), (oref(o1[0]), K[0])], [(v + v1 - 7, K[2])])], 'second-input-signed-by-first-inputs-key', out)
     # ---- signatures
     _blk(P, [mk_tx([(o_ref, K[1])], [(COIN, K[1]), (v - COIN - 1000 % (v // 10), K[0])])], 'signed-by-other-wallet-key', out)
     _blk(P, [mk_tx([(o_ref, K[2])], [(COIN, K[1]), (v - COIN - 1000 % (v // 10), K[0])])], 'signed-by-foreign-key', out)
